@@ -1103,12 +1103,13 @@ def rule_R3(ctx, entry_keys, chain_dict):
 def run(ctx):
     ctx.assume("TreeNode.add_data_point_list, rustworkx extend_from_edge_list / remove_nodes_from / node_indices behave as documented")
     ctx.assume("pickle preserves dictionaries, lists and DataPoint objects; float equality after restore is not decided")
-    rule_D1(ctx)
-    rule_D2(ctx)
-    rule_D3(ctx)
-    entry = rule_R1(ctx)
-    chain_dict = rule_R2(ctx, entry)
-    rule_R3(ctx, entry[1].keys(), chain_dict)
+    ctx.soft(rule_D1)
+    ctx.soft(rule_D2)
+    ctx.soft(rule_D3)
+    entry = ctx.soft(rule_R1)
+    if entry is not None:
+        chain_dict = ctx.soft(rule_R2, entry)
+        ctx.soft(rule_R3, entry[1].keys(), chain_dict)
     # "self-consistent entries": the recorded alpha is the value the recorded log_p_one was computed under only if
     # assigning alpha refreshes everything derived from it (same rule object as C13.U3), and log_p_one is the
     # specified density of the recorded tree (C03.T1-T3)
